@@ -846,7 +846,11 @@ func main() {
 	rng := run.RNG.Fork()
 	n := run.Scale(400, 8000)
 	for i := 0; i < n; i++ {
-		w.runHist(run, genHist(rng, i))
+		if i%4 == 3 {
+			w.runHist(run, genMultiSetHist(rng, i))
+		} else {
+			w.runHist(run, genHist(rng, i))
+		}
 	}
 }
 
